@@ -167,7 +167,8 @@ func genStreamScenario(r *rng, sid string, maxPIDs, maxUnits int) streamScenario
 	}
 	nes := r.rangeInt(1, 4)
 	for i := 0; i < nes && len(pids) < maxPIDs; i++ {
-		pids = append(pids, &pidState{pid: []int{0x100, 0x147, 0x747, 0x101}[(i+int(sc.Seed%4))%4], role: "es"}) // some PIDs carry a 0x47 byte
+		// some PIDs carry a 0x47 byte; 0x1020 / 0x1021 differ from the usual PMT PIDs in one bit only
+		pids = append(pids, &pidState{pid: []int{0x100, 0x147, 0x747, 0x101, 0x1020, 0x1021}[(i+int(sc.Seed%6))%6], role: "es"})
 	}
 	uid := 0
 	for _, ps := range pids {
